@@ -235,6 +235,8 @@ class VerifyEnv:
         site = "L%d" % getattr(node, "lineno", 0)
         c = Ctx(ex, st, loc, mode="call")
         short = finfo.qual.split(":")[1]
+        for ax in con.ghost_axioms(c):
+            st.assume(ax)
         for (nm, goal) in con.pre(c):
             ex.oblige("%s.call.pre(%s):%s" % (site, short, nm), "call.pre", st, goal)
             st.assume(goal)
